@@ -149,8 +149,21 @@ pub fn run(rep: &mut Report) {
         if z.name == "Factory" {
             continue;
         }
-        // quick: a third of the zones per run (seed-dependent), all classes still present
-        if quick_subset && k % 3 != (rep.cfg.seed % 3) as usize && !["America/New_York", "Europe/Dublin", "Africa/Casablanca", "Australia/Lord_Howe", "Pacific/Apia", "Asia/Kolkata", "Antarctica/Troll", "America/Sao_Paulo", "Africa/Monrovia"].contains(&z.name.as_str()) {
+        // quick: a third of the zones per run (seed-dependent), all classes still present; zones with an offset of 14 hours
+        // or more, or a jump of most of a day (date-line moves), are always visited
+        let extreme = z.initial.abs() >= 50_400 || z.trans.iter().any(|x| x.1.abs() >= 50_400) || {
+            let mut before = z.initial;
+            let mut jump = false;
+            for (_, after) in &z.trans {
+                jump |= (after - before).abs() >= 20 * 3600;
+                before = *after;
+            }
+            jump
+        };
+        if extreme {
+            rep.hit("zones/extreme-offset-or-day-jump");
+        }
+        if quick_subset && !extreme && k % 3 != (rep.cfg.seed % 3) as usize && !["America/New_York", "Europe/Dublin", "Africa/Casablanca", "Australia/Lord_Howe", "Pacific/Apia", "Asia/Kolkata", "Antarctica/Troll", "America/Sao_Paulo", "Africa/Monrovia"].contains(&z.name.as_str()) {
             continue;
         }
         rep.hit("zones/visited");
